@@ -91,6 +91,13 @@ class RunView:
 # -------------------------------------------------------------------------------------------
 def o_termination(case, rec):
     if rec.status == DONE:
+        # bounded liveness: once the last external completion / timer / fault has been delivered, the run must end
+        # within a bounded number of loop handles (generous: observed maximum on the claimed classes is < 300)
+        bound = 2000 + 200 * len(case['spec']['nodes'])
+        if (rec.max_lag or 0) > bound:
+            return [Violation({'C02'}, 'slow_termination',
+                              f'{rec.max_lag} loop handles between the last external event and the end of the run '
+                              f'(bound {bound})')]
         return []
     pend = [i for i, o in enumerate(rec.outcomes) if o[0] == 'pending']
     # a run that never ends also never delivers what the construct-specific properties promise
